@@ -280,7 +280,8 @@ int main(void) {
   VP_ASSERT(live_allocs - vp_m_segments_allocated(&M) == total, "node leaked or freed twice: live node allocations != linked nodes");
   VP_ASSERT(linearizable(), "history not linearizable: no sequential order of the operations explains the results and the final content");
 #ifdef FINAL_COUNT
-  /* the real sequential count() agrees with the census for every universe key (erased keys are not found, the others are) */
+  /* the real sequential count() agrees with the census for every universe key (erased keys are not found, the others are).
+     NOT enabled by any scenario: the real lookup on the symbolic post-state makes symex explode (> 20 min); the census above is the traversal */
   for (int i = 0; i < NKEYS; i++) if (UK[i] != 0 && uidx(UK[i]) == i) VP_ASSERT(vp_m_count(&M, UK[i]) == final_[i], "sequential count() after quiescence disagrees with the linked nodes");
 #endif
 #ifdef OVERLAP_BUCKET
